@@ -1120,3 +1120,359 @@ Proof.
   split; [apply wf_examples|]. split; [vm_compute; reflexivity|].
   unfold wf. cbn. tauto.
 Qed.
+
+(* ------------------------------------------------------------------ x[:] and x[..., a:b] *)
+Lemma py_slice_len_full n : 0 <= n -> py_slice_len n None None 1 = n.
+Proof. intros H. rewrite py_slice_len_1. cbn [py_lo py_hi]. lia. Qed.
+
+Lemma map_id_ext {A} (f : A -> A) l : (forall a, f a = a) -> map f l = l.
+Proof. intros H. induction l as [|a l IH]; [reflexivity|]. cbn. now rewrite H, IH. Qed.
+
+Lemma sel_t_full row : sel_t full row = row.
+Proof. apply take_sel_full. Qed.
+
+Definition sole_full : index := {| sole := true; items := [full] |}.
+
+Lemma getitem_full_id p : wf p -> getitem p sole_full = RArr p.
+Proof.
+  intros Hwf.
+  assert (Hd : denotes (ndim p) sole_full 0 (repeat full (Z.to_nat (ndim p)))).
+  { unfold ndim. wf_cases p Hwf; cbn [shape]; eexists; (split; [vm_compute; reflexivity|]);
+      (split; [vm_compute; reflexivity|]); (split; [reflexivity | vm_compute; discriminate]). }
+  assert (Hv : valid_on (shape p) (repeat full (Z.to_nat (ndim p)))).
+  { unfold ndim. wf_cases p Hwf; reflexivity. }
+  destruct (getitem_regular _ _ _ _ Hwf Hd Hv) as (d0 & d' & H0 & Hw & Hg). rewrite Hg. f_equal.
+  unfold spec_result, ndim in *.
+  wf_cases p Hwf; cbn [shape dat chan meta s0 fsn fsd] in *.
+  - change (Z.to_nat (zlen [t1])) with 1%nat in *. cbn [repeat np_regular] in *.
+    injection H0 as <-. unfold wrap_new, sel_c, sel_e in Hw. cbv beta iota delta [full Z.eqb] in Hw.
+    change (ISlice None None None) with full in Hw. injection Hw as <-.
+    cbn [Z.to_nat app out_shape is_int full sel_len step_of time_item last slice_start slice_step spec_chan spec_meta
+         Z.gtb Z.compare py_lo n_time shape].
+    rewrite py_slice_len_full by (pose proof (zlen_nonneg r); lia). rewrite ?py_slice_step_full. f_equal; lia.
+  - destruct Hwf as (Ht & [Hb1 Hb2] & Hl).
+    change (Z.to_nat (zlen [t1; t2])) with 2%nat in *. cbn [repeat np_regular] in *.
+    injection H0 as <-. unfold wrap_new, sel_c, sel_e in Hw. cbv beta iota delta [full Z.eqb] in Hw.
+    change (ISlice None None None) with full in Hw. injection Hw as <-.
+    cbn [Z.to_nat app out_shape is_int full sel_len step_of time_item last slice_start slice_step spec_chan spec_meta
+         sel_lab Z.gtb Z.compare py_lo n_time shape].
+    rewrite !py_slice_len_full by (pose proof (zlen_nonneg zs); lia).
+    rewrite ?py_slice_step_full.
+    rewrite (map_id_ext _ b) by (intros; apply sel_t_full). rewrite ?take_sel_full. f_equal; lia.
+  - destruct Hwf as (Hc & Ht & He & Hrect & Hl & Hm).
+    change (Z.to_nat (zlen [t1; t2; t3])) with 3%nat in *. cbn [repeat np_regular] in *.
+    injection H0 as <-. unfold wrap_new, sel_c, sel_e in Hw. cbv beta iota delta [full Z.eqb] in Hw.
+    change (ISlice None None None) with full in Hw. injection Hw as <-.
+    cbn [Z.to_nat app out_shape is_int full sel_len step_of time_item last slice_start slice_step spec_chan spec_meta
+         sel_lab Z.gtb Z.compare py_lo n_time shape].
+    rewrite !py_slice_len_full by (pose proof (zlen_nonneg d); lia).
+    rewrite ?py_slice_step_full.
+    rewrite (map_id_ext _ d).
+    + rewrite ?take_sel_full. f_equal; lia.
+    + intros blk. change (ISlice None None None) with full. rewrite ?take_sel_full, ?py_slice_step_full.
+      apply map_id_ext, sel_t_full.
+Qed.
+
+(* ------------------------------------------------------------------ concat along time: what is accepted *)
+Lemma ensure_dim_time ps : Forall wf ps -> ps <> [] -> ensure_dim ps DTime = inr ps.
+Proof.
+  intros Hwf Hne. unfold ensure_dim. destruct ps as [|a0 ps0] eqn:E; [congruence|]. rewrite <- E in *.
+  cbn [ensure_index]. clear E Hne. fold sole_full.
+  induction ps as [|p ps IH]; [reflexivity|].
+  cbn [map all_arrays]. rewrite (getitem_full_id p (Forall_inv Hwf)). rewrite IH by exact (Forall_inv_tail Hwf).
+  reflexivity.
+Qed.
+
+Lemma eqb_listZ_eq a : forall b, eqb_listZ a b = true -> a = b.
+Proof.
+  induction a as [|x a IH]; intros [|y b] H; try discriminate; [reflexivity|].
+  cbn [eqb_listZ] in H. apply andb_prop in H. destruct H as [H1 H2]. f_equal; [lia | now apply IH].
+Qed.
+Lemma eqb_listZ_refl a : eqb_listZ a a = true.
+Proof. induction a as [|x a IH]; [reflexivity|]. cbn [eqb_listZ]. now rewrite Z.eqb_refl, IH. Qed.
+Lemma eqb_lab_eq a b : eqb_lab a b = true -> a = b.
+Proof. destruct a, b; cbn [eqb_lab]; intros H; try discriminate; f_equal; [lia | now apply eqb_listZ_eq]. Qed.
+Lemma eqb_lab_refl a : eqb_lab a a = true.
+Proof. destruct a; cbn [eqb_lab]; [apply Z.eqb_refl | apply eqb_listZ_refl]. Qed.
+
+Lemma contiguous_adjacent ps : forall cur, contiguous_from cur ps = true <-> pieces_adjacent cur ps.
+Proof.
+  induction ps as [|p ps IH]; intros cur; cbn [contiguous_from pieces_adjacent]; [tauto|].
+  rewrite andb_true_iff, IH. split; intros [H1 H2]; split; try assumption; lia.
+Qed.
+
+(* whatever concat accepts is consistent: a gap, an overlap, another rate, other channel labels, other
+   metadata or another dimensionality is rejected; the result carries the annotations of the first piece *)
+Theorem concat_rejects ps r :
+  Forall wf ps -> concat_pd DTime ps = RArr r ->
+  exists base rest, ps = base :: rest /\ consistent base rest /\
+    s0 r = s0 base /\ fsn r = fsn base /\ fsd r = fsd base /\ chan r = chan base /\ meta r = meta base.
+Proof.
+  intros Hwf H. destruct ps as [|base rest]; [discriminate H|].
+  exists base, rest. split; [reflexivity|].
+  unfold concat_pd in H. rewrite ensure_dim_time in H by (assumption || discriminate).
+  destruct (forallb (fun a => ndim a =? ndim base) rest) eqn:E1; [|discriminate H].
+  destruct (forallb (same_fs base) rest) eqn:E2; [|discriminate H].
+  destruct (contiguous_from (s0 base + n_time base) rest) eqn:E3; [|discriminate H].
+  cbn [negb] in H.
+  destruct (forallb (fun a => eqb_lab (chan a) (chan base)) rest) eqn:E4; [|discriminate H].
+  destruct (forallb (fun a => eqb_lab (meta a) (meta base)) rest) eqn:E5; [|discriminate H].
+  destruct (cat_all DTime (shape base) (dat base) rest) as [[sh d]|]; [|discriminate H].
+  destruct (ctor_ok sh (chan base) (meta base)); [|discriminate H].
+  injection H as <-. cbn [s0 fsn fsd chan meta].
+  split; [|repeat split; reflexivity].
+  split; [now apply contiguous_adjacent|].
+  apply Forall_forall. intros a Ha.
+  rewrite forallb_forall in E1, E2, E4, E5.
+  specialize (E1 _ Ha). specialize (E2 _ Ha). specialize (E4 _ Ha). specialize (E5 _ Ha).
+  unfold same_fs in E2.
+  repeat split; [lia | lia | now apply eqb_lab_eq | now apply eqb_lab_eq].
+Qed.
+
+(* ------------------------------------------------------------------ concat of adjacent time pieces restores the array *)
+Definition nest_map (f : list Z -> list Z) (d : nest) : nest :=
+  match d with N1 r => N1 (f r) | N2 b => N2 (map f b) | N3 e => N3 (map (map f) e) end.
+Definition set_time (sh : list Z) (n : Z) : list Z := removelast sh ++ [n].
+Definition tslice (x : pd) (a b : Z) : pd :=
+  {| shape := set_time (shape x) (b - a); dat := nest_map (py_slice (Some a) (Some b)) (dat x);
+     s0 := s0 x + a; fsn := fsn x; fsd := fsd x; chan := chan x; meta := meta x |}.
+Fixpoint tslices (x : pd) (o : Z) (cuts : list Z) : list pd :=
+  match cuts with [] => [] | c :: t => tslice x o c :: tslices x c t end.
+
+Lemma py_slice_len_ab n a b : 0 <= a <= b -> b <= n -> py_slice_len n (Some a) (Some b) 1 = b - a.
+Proof. intros H1 H2. rewrite py_slice_len_1. cbn [py_lo py_hi]. unfold adj_bound. destruct (a <? 0) eqn:E1; destruct (b <? 0) eqn:E2; lia. Qed.
+Lemma py_lo_a n a : 0 <= a <= n -> py_lo n (Some a) = a.
+Proof. intros H. cbn [py_lo]. unfold adj_bound. destruct (a <? 0) eqn:E; lia. Qed.
+
+Lemma n_time_nonneg x : wf x -> 0 <= n_time x.
+Proof. intros Hwf. unfold n_time. wf_cases x Hwf; cbn [shape last]; [pose proof (zlen_nonneg r); lia | tauto | tauto]. Qed.
+
+Lemma getitem_time_piece x a b : wf x -> 0 <= a <= b -> b <= n_time x ->
+  getitem x (time_piece a b) = RArr (tslice x a b).
+Proof.
+  intros Hwf Hab Hb.
+  set (it := ISlice (Some a) (Some b) None).
+  assert (Hd : denotes (ndim x) (time_piece a b) 0 (repeat full (Z.to_nat (ndim x - 1)) ++ [it])).
+  { unfold ndim. wf_cases x Hwf; cbn [shape]; eexists; (split; [vm_compute; reflexivity|]);
+      (split; [vm_compute; reflexivity|]); (split; [reflexivity | vm_compute; discriminate]). }
+  assert (Hv : valid_on (shape x) (repeat full (Z.to_nat (ndim x - 1)) ++ [it])).
+  { unfold ndim. wf_cases x Hwf; reflexivity. }
+  destruct (getitem_regular _ _ _ _ Hwf Hd Hv) as (d0 & d' & H0 & Hw & Hg). rewrite Hg. f_equal.
+  pose proof (n_time_nonneg x Hwf) as Hn.
+  unfold spec_result, tslice, ndim in *. unfold n_time in *.
+  wf_cases x Hwf; cbn [shape dat chan meta s0 fsn fsd last] in *.
+  - change (Z.to_nat (zlen [t1] - 1)) with 0%nat in *. cbn [repeat app np_regular] in *.
+    injection H0 as <-. unfold wrap_new in Hw. cbn [Z.eqb] in Hw. injection Hw as <-.
+    unfold it. cbn [Z.to_nat repeat app out_shape is_int sel_len step_of time_item last slice_start slice_step spec_chan spec_meta
+                    Z.gtb Z.compare nest_map set_time removelast sel_t take_sel].
+    rewrite py_slice_len_ab, py_lo_a, py_slice_step_1 by lia. f_equal; lia.
+  - destruct Hwf as (Ht & [Hb1 Hb2] & Hl).
+    change (Z.to_nat (zlen [t1; t2] - 1)) with 1%nat in *. cbn [repeat app np_regular] in *.
+    injection H0 as <-. unfold wrap_new, sel_c in Hw. cbv beta iota delta [full Z.eqb] in Hw. injection Hw as <-.
+    unfold it. cbn [Z.to_nat repeat app out_shape is_int full sel_len step_of time_item last slice_start slice_step spec_chan
+                    spec_meta sel_lab Z.gtb Z.compare nest_map set_time removelast].
+    rewrite py_slice_len_ab, py_lo_a, py_slice_len_full by (try lia; pose proof (zlen_nonneg zs); lia).
+    change (ISlice None None None) with full. rewrite ?take_sel_full, ?py_slice_step_full.
+    f_equal; try lia. f_equal. apply map_ext. intros row. apply py_slice_step_1.
+  - destruct Hwf as (Hc & Ht & He & Hrect & Hl & Hm).
+    change (Z.to_nat (zlen [t1; t2; t3] - 1)) with 2%nat in *. cbn [repeat app np_regular] in *.
+    injection H0 as <-. unfold wrap_new, sel_e in Hw. cbv beta iota delta [full Z.eqb] in Hw. injection Hw as <-.
+    unfold it. cbn [Z.to_nat repeat app out_shape is_int full sel_len step_of time_item last slice_start slice_step spec_chan
+                    spec_meta sel_lab Z.gtb Z.compare nest_map set_time removelast].
+    rewrite py_slice_len_ab, py_lo_a, !py_slice_len_full by (try lia; pose proof (zlen_nonneg d); lia).
+    change (ISlice None None None) with full. rewrite ?take_sel_full, ?py_slice_step_full.
+    f_equal; try lia. f_equal. apply map_ext. intros blk. rewrite ?take_sel_full, ?py_slice_step_full.
+    apply map_ext. intros row. apply py_slice_step_1.
+Qed.
+
+Lemma wf_tslice x a b : wf x -> 0 <= a <= b -> b <= n_time x -> wf (tslice x a b).
+Proof.
+  intros Hwf Hab Hb.
+  assert (Hd : denotes (ndim x) (time_piece a b) 0 (repeat full (Z.to_nat (ndim x - 1)) ++ [ISlice (Some a) (Some b) None])).
+  { unfold ndim. wf_cases x Hwf; cbn [shape]; eexists; (split; [vm_compute; reflexivity|]);
+      (split; [vm_compute; reflexivity|]); (split; [reflexivity | vm_compute; discriminate]). }
+  assert (Hv : valid_on (shape x) (repeat full (Z.to_nat (ndim x - 1)) ++ [ISlice (Some a) (Some b) None])).
+  { unfold ndim. wf_cases x Hwf; reflexivity. }
+  eapply counts; [exact Hwf | exact Hd | exact Hv | | now apply getitem_time_piece].
+  unfold ndim. wf_cases x Hwf; reflexivity.
+Qed.
+
+Lemma firstn_add_skipn {A} m k : forall l : list A, firstn (m + k) l = firstn m l ++ firstn k (skipn m l).
+Proof.
+  induction m as [|m IH]; intros l; [reflexivity|].
+  destruct l as [|x l]; [cbn; now rewrite firstn_nil|]. cbn [Nat.add firstn skipn app]. now rewrite IH.
+Qed.
+
+Lemma skipn_skipn' {A} k : forall m (l : list A), skipn m (skipn k l) = skipn (k + m) l.
+Proof.
+  induction k as [|k IH]; intros m l; [reflexivity|].
+  destruct l as [|x l]; [cbn; now rewrite skipn_nil|]. cbn [Nat.add skipn]. apply IH.
+Qed.
+
+Lemma py_slice_app (r : list Z) a b c : 0 <= a <= b -> b <= c -> c <= zlen r ->
+  py_slice (Some a) (Some b) r ++ py_slice (Some b) (Some c) r = py_slice (Some a) (Some c) r.
+Proof.
+  intros H1 H2 H3. unfold py_slice. rewrite !py_lo_a by lia.
+  assert (Hh : forall v, 0 <= v <= zlen r -> py_hi (zlen r) (Some v) = v).
+  { intros v Hv. cbn [py_hi]. unfold adj_bound. destruct (v <? 0) eqn:E; lia. }
+  rewrite !Hh by lia.
+  replace (Z.to_nat (c - a)) with (Z.to_nat (b - a) + Z.to_nat (c - b))%nat by lia.
+  rewrite firstn_add_skipn. f_equal. f_equal. rewrite skipn_skipn'. f_equal. lia.
+Qed.
+
+Lemma py_slice_whole (r : list Z) : py_slice (Some 0) (Some (zlen r)) r = r.
+Proof.
+  unfold py_slice. rewrite py_lo_a by (pose proof (zlen_nonneg r); lia).
+  cbn [py_hi]. unfold adj_bound. pose proof (zlen_nonneg r).
+  destruct (zlen r <? 0) eqn:E; [lia|]. rewrite Z.min_id. cbn [Z.to_nat skipn].
+  replace (Z.to_nat (zlen r - 0)) with (length r) by (unfold zlen; lia). apply firstn_all.
+Qed.
+
+Lemma zip_app_map {A} (f g : A -> list Z) l : zip_with (@app Z) (map f l) (map g l) = map (fun r => f r ++ g r) l.
+Proof. induction l as [|a l IH]; [reflexivity|]. cbn. now rewrite IH. Qed.
+Lemma zip_zip_app_map (f g : list Z -> list Z) (e : list (list (list Z))) :
+  zip_with (zip_with (@app Z)) (map (map f) e) (map (map g) e) = map (map (fun r => f r ++ g r)) e.
+Proof. induction e as [|b e IH]; [reflexivity|]. cbn. now rewrite IH, zip_app_map. Qed.
+
+Lemma cat2_nest_map f g d : cat2 DTime (nest_map f d) (nest_map g d) = Some (nest_map (fun r => f r ++ g r) d).
+Proof. destruct d; cbn [nest_map cat2]; [reflexivity | now rewrite zip_app_map | now rewrite zip_zip_app_map]. Qed.
+
+Lemma nest_map_ext f g d : (forall r, In r (rows d) -> f r = g r) -> nest_map f d = nest_map g d.
+Proof.
+  destruct d as [r | b | e]; cbn [nest_map rows]; intros H.
+  - f_equal. apply H. now left.
+  - f_equal. apply map_ext_in. exact H.
+  - f_equal. apply map_ext_in. intros blk Hb. apply map_ext_in. intros r Hr. apply H. apply in_concat. now exists blk.
+Qed.
+
+Lemma rows_length x r : wf x -> In r (rows (dat x)) -> zlen r = n_time x.
+Proof.
+  intros Hwf Hin. unfold n_time. wf_cases x Hwf; cbn [shape dat rows last] in *.
+  - destruct Hin as [<-|[]]. exact Hwf.
+  - destruct Hwf as (_ & [_ Hb2] & _). rewrite Forall_forall in Hb2. now apply Hb2.
+  - destruct Hwf as (_ & _ & _ & Hrect & _). apply in_concat in Hin. destruct Hin as (blk & Hb & Hr).
+    rewrite Forall_forall in Hrect. destruct (Hrect _ Hb) as [_ H2]. rewrite Forall_forall in H2. now apply H2.
+Qed.
+
+Lemma cat_shape_time sh n1 n2 : (1 <= length sh <= 3)%nat ->
+  cat_shape DTime (set_time sh n1) (set_time sh n2) = Some (set_time sh (n1 + n2)).
+Proof.
+  intros H. destruct sh as [|a [|b [|c [|? ?]]]]; cbn [length] in H; try lia;
+    unfold cat_shape, set_time; cbn [removelast app rev axis_back cat_shape_rev eqb_listZ];
+    rewrite ?Z.eqb_refl; cbn [andb length Nat.leb rev app]; reflexivity.
+Qed.
+
+Lemma shape_length x : wf x -> (1 <= length (shape x) <= 3)%nat.
+Proof. intros Hwf. wf_cases x Hwf; cbn; lia. Qed.
+
+Lemma cuts_ok_le cuts : forall o n, cuts_ok o cuts n -> o <= n.
+Proof. induction cuts as [|c t IH]; intros o n H; cbn [cuts_ok] in H; [lia|]. destruct H as [H1 H2]. specialize (IH _ _ H2). lia. Qed.
+
+Lemma cat_all_tslices x : wf x -> forall cuts o0 o, 0 <= o0 <= o -> cuts_ok o cuts (n_time x) ->
+  cat_all DTime (shape (tslice x o0 o)) (dat (tslice x o0 o)) (tslices x o cuts) =
+  Some (shape (tslice x o0 (n_time x)), dat (tslice x o0 (n_time x))).
+Proof.
+  intros Hwf. induction cuts as [|c t IH]; intros o0 o Ho Hc; cbn [cuts_ok] in Hc.
+  - subst o. reflexivity.
+  - destruct Hc as [Hoc Hc]. pose proof (cuts_ok_le _ _ _ Hc) as Hcn.
+    cbn [tslices cat_all]. unfold tslice at 1 2 3 4. cbn [shape dat].
+    rewrite cat_shape_time by (now apply shape_length). rewrite cat2_nest_map.
+    replace (o - o0 + (c - o)) with (c - o0) by lia.
+    rewrite (nest_map_ext _ (py_slice (Some o0) (Some c))).
+    + apply (IH o0 c); [lia | exact Hc].
+    + intros r Hr. apply py_slice_app; try lia. rewrite (rows_length x r Hwf Hr). lia.
+Qed.
+
+Lemma tslice_whole x : wf x -> tslice x 0 (n_time x) = x.
+Proof.
+  intros Hwf. unfold tslice.
+  rewrite (nest_map_ext _ (fun r => r)).
+  - destruct x as [sh d xs0 xfn xfd ch md]. cbn [shape dat s0 fsn fsd chan meta] in *.
+    f_equal; try lia.
+    + unfold set_time, n_time. cbn [shape]. rewrite Z.sub_0_r.
+      assert (Hne : sh <> []) by (pose proof (shape_length _ Hwf) as H; cbn [shape] in H; destruct sh; [cbn in H; lia | discriminate]).
+      symmetry. now apply app_removelast_last.
+    + destruct d; cbn [nest_map]; f_equal; [now rewrite map_id | ].
+      rewrite <- (map_id d) at 2. apply map_ext. intros blk. now rewrite map_id.
+  - intros r Hr. rewrite <- (rows_length x r Hwf Hr). apply py_slice_whole.
+Qed.
+
+Lemma ndim_tslice x a b : wf x -> ndim (tslice x a b) = ndim x.
+Proof. intros Hwf. unfold ndim, tslice, set_time. wf_cases x Hwf; reflexivity. Qed.
+Lemma n_time_tslice x a b : n_time (tslice x a b) = b - a.
+Proof. unfold n_time, tslice, set_time. cbn [shape]. apply last_last. Qed.
+
+Lemma wf_ctor_ok x : wf x -> ctor_ok (shape x) (chan x) (meta x) = true.
+Proof.
+  intros Hwf. unfold ctor_ok. wf_cases x Hwf; cbn [shape chan meta].
+  - reflexivity.
+  - destruct Hwf as (_ & _ & Hl). change (zlen [t1; t2]) with 2. cbn. rewrite Hl, Z.eqb_refl. reflexivity.
+  - destruct Hwf as (_ & _ & _ & _ & Hl & Hm). change (zlen [t1; t2; t3]) with 3. cbn. rewrite Hl, Hm, !Z.eqb_refl. reflexivity.
+Qed.
+
+Lemma wf_tslices x : wf x -> forall cuts o, 0 <= o -> cuts_ok o cuts (n_time x) -> Forall wf (tslices x o cuts).
+Proof.
+  intros Hwf. induction cuts as [|c t IH]; intros o Ho Hc; cbn [tslices]; [constructor|].
+  cbn [cuts_ok] in Hc. destruct Hc as [Hoc Hc]. pose proof (cuts_ok_le _ _ _ Hc).
+  constructor; [apply wf_tslice; [exact Hwf | lia | lia] | apply IH; [lia | exact Hc]].
+Qed.
+
+Lemma pieces_tslices x : wf x -> forall cuts o, 0 <= o -> cuts_ok o cuts (n_time x) ->
+  all_arrays (map (getitem x) (piece_indices o cuts)) = inr (tslices x o cuts).
+Proof.
+  intros Hwf. induction cuts as [|c t IH]; intros o Ho Hc; [reflexivity|].
+  cbn [cuts_ok] in Hc. destruct Hc as [Hoc Hc]. pose proof (cuts_ok_le _ _ _ Hc).
+  cbn [piece_indices map all_arrays tslices]. rewrite getitem_time_piece by (assumption || lia).
+  rewrite IH by (lia || assumption). reflexivity.
+Qed.
+
+Lemma adjacent_tslices x : forall cuts o, pieces_adjacent (s0 x + o) (tslices x o cuts).
+Proof.
+  induction cuts as [|c t IH]; intros o; cbn [tslices pieces_adjacent]; [exact I|].
+  split; [reflexivity|]. rewrite n_time_tslice. cbn [tslice s0]. replace (s0 x + o + (c - o)) with (s0 x + c) by lia. apply IH.
+Qed.
+
+(* any split of the time axis into adjacent pieces (cut points 0 <= c1 <= ... <= cm = n_time, empty pieces
+   allowed), each piece taken with x[..., a:b], concatenates back to the original array and annotations *)
+Theorem concat_restores x cuts :
+  wf x -> cuts <> [] -> cuts_ok 0 cuts (n_time x) ->
+  exists ps, all_arrays (map (getitem x) (piece_indices 0 cuts)) = inr ps /\ Forall wf ps /\
+             concat_pd DTime ps = RArr x.
+Proof.
+  intros Hwf Hne Hc. exists (tslices x 0 cuts).
+  split; [apply pieces_tslices; [exact Hwf | lia | exact Hc]|].
+  pose proof (wf_tslices x Hwf cuts 0 ltac:(lia) Hc) as Hall. split; [exact Hall|].
+  destruct cuts as [|c t]; [congruence|]. cbn [cuts_ok] in Hc. destruct Hc as [H0c Hc].
+  unfold concat_pd. rewrite ensure_dim_time by (exact Hall || discriminate).
+  cbn [tslices].
+  assert (E1 : forallb (fun a => ndim a =? ndim (tslice x 0 c)) (tslices x c t) = true).
+  { apply forallb_forall. intros a Ha. rewrite ndim_tslice by exact Hwf.
+    clear - Ha Hwf. revert c Ha. induction t as [|c' t IH]; intros c Ha; [contradiction|].
+    cbn [tslices In] in Ha. destruct Ha as [<-|Ha]; [rewrite ndim_tslice by exact Hwf; lia | eapply IH; exact Ha]. }
+  assert (E2 : forallb (same_fs (tslice x 0 c)) (tslices x c t) = true).
+  { apply forallb_forall. intros a Ha. unfold same_fs.
+    assert (fsn a = fsn x /\ fsd a = fsd x) as [-> ->].
+    { clear - Ha. revert c Ha. induction t as [|c' t IH]; intros c Ha; [contradiction|].
+      cbn [tslices In] in Ha. destruct Ha as [<-|Ha]; [split; reflexivity | eapply IH; exact Ha]. }
+    cbn [tslice fsn fsd]. lia. }
+  assert (E4 : forallb (fun a => eqb_lab (chan a) (chan (tslice x 0 c))) (tslices x c t) = true).
+  { apply forallb_forall. intros a Ha.
+    assert (chan a = chan x) as ->.
+    { clear - Ha. revert c Ha. induction t as [|c' t IH]; intros c Ha; [contradiction|].
+      cbn [tslices In] in Ha. destruct Ha as [<-|Ha]; [reflexivity | eapply IH; exact Ha]. }
+    apply eqb_lab_refl. }
+  assert (E5 : forallb (fun a => eqb_lab (meta a) (meta (tslice x 0 c))) (tslices x c t) = true).
+  { apply forallb_forall. intros a Ha.
+    assert (meta a = meta x) as ->.
+    { clear - Ha. revert c Ha. induction t as [|c' t IH]; intros c Ha; [contradiction|].
+      cbn [tslices In] in Ha. destruct Ha as [<-|Ha]; [reflexivity | eapply IH; exact Ha]. }
+    apply eqb_lab_refl. }
+  rewrite E1, E2, E4, E5. cbn [negb].
+  assert (E3 : contiguous_from (s0 (tslice x 0 c) + n_time (tslice x 0 c)) (tslices x c t) = true).
+  { apply contiguous_adjacent. rewrite n_time_tslice. cbn [tslice s0].
+    replace (s0 x + 0 + (c - 0)) with (s0 x + c) by lia. apply adjacent_tslices. }
+  rewrite E3. cbn [negb].
+  rewrite (cat_all_tslices x Hwf t 0 c ltac:(lia) Hc).
+  rewrite (tslice_whole x Hwf). cbn [tslice s0 fsn fsd chan meta]. rewrite (wf_ctor_ok x Hwf).
+  f_equal. destruct x as [sh d xs0 xfn xfd ch md]; cbn [shape dat s0 fsn fsd chan meta]. f_equal. lia.
+Qed.
